@@ -155,35 +155,47 @@ sv_proof!(c15_lines_iter_n4, 8, c15_lines_iter_body::<4>());
 
 // ---------------------------------------------------------------------------
 // C15: get_line_slice at UTF-16 columns.
-// reference: walk chars of the line; the slice covers code units c..c+n, whole
-// surrogate pairs included, None if the line has fewer than c+n units.
+// reference (flat loops): the slice consists of exactly the characters whose code-unit
+// interval [s, e) intersects [c, c+n) -- so a surrogate pair that is only partly inside
+// the range, at either end, is included whole -- and there is no slice when the line has
+// fewer than c+n code units.  For n = 0 only "some slice iff the line has c units" is
+// required (which empty position is returned is not specified).
 fn ref_slice(chars: &[(usize, usize)], nchars: usize, col: u64, span: u64) -> Option<(usize, usize)> {
     // chars[i] = (utf8 len, utf16 len)
-    let mut off = 0usize;
-    let mut idx = 0u64;
+    let mut total = 0u64;
     let mut i = 0;
-    while i < nchars && idx < col {
-        off += chars[i].0;
-        idx += chars[i].1 as u64;
+    while i < nchars {
+        total += chars[i].1 as u64;
         i += 1;
     }
-    let mut off_end = off;
-    while i < nchars && idx < col + span {
-        off_end += chars[i].0;
-        idx += chars[i].1 as u64;
+    if total < col + span {
+        return None;
+    }
+    let mut off = 0usize;
+    let mut off_end = 0usize;
+    let mut s = 0u64;
+    i = 0;
+    while i < nchars {
+        let e = s + chars[i].1 as u64;
+        if e <= col {
+            off += chars[i].0;
+        }
+        if s < col + span {
+            off_end += chars[i].0;
+        }
+        s = e;
         i += 1;
     }
-    if idx < col + span {
-        None
-    } else {
-        Some((off, off_end))
+    if off_end < off {
+        off_end = off;
     }
+    Some((off, off_end))
 }
 
-fn slice_is(line_ptr: usize, want: Option<(usize, usize)>, got: Option<&str>) -> bool {
+fn slice_is(line_ptr: usize, want: Option<(usize, usize)>, got: Option<&str>, span: u32) -> bool {
     match (want, got) {
         (None, None) => true,
-        (Some((a, b)), Some(s)) => s.as_ptr() as usize == line_ptr + a && s.len() == b - a,
+        (Some((a, b)), Some(s)) => span == 0 || (s.as_ptr() as usize == line_ptr + a && s.len() == b - a),
         _ => false,
     }
 }
@@ -203,7 +215,7 @@ sv_proof!(c15_slice_ascii_n4, 8, {
     let chars = [(1usize, 1usize); 4];
     let want = ref_slice(&chars, 4, col as u64, span as u64);
     let got = sv.get_line_slice(0, col, span);
-    assert!(slice_is(sv.source().as_ptr() as usize, want, got), "C15/slice-covers-code-units");
+    assert!(slice_is(sv.source().as_ptr() as usize, want, got, span), "C15/slice-covers-code-units");
     kani::cover!(got.map_or(false, |s| s.len() == 2) && col == 1, "two letters from column 1");
     kani::cover!(got.is_none() && col < 4, "span runs past the end");
     forget(sv);
@@ -244,10 +256,13 @@ fn c15_slice_wide_body<const K0: u8, const K1: u8, const K2: u8>() {
     kani::assume(col < 8 && span < 8);
     let want = ref_slice(&chars, 3, col as u64, span as u64);
     let got = sv.get_line_slice(0, col, span);
-    assert!(slice_is(sv.source().as_ptr() as usize, want, got), "C15/slice-covers-code-units-wide");
+    assert!(slice_is(sv.source().as_ptr() as usize, want, got, span), "C15/slice-covers-code-units-wide");
     kani::cover!(got.map_or(false, |s| s.len() == n), "whole line");
     kani::cover!(got.is_none(), "line shorter than col + span");
     kani::cover!(col == 1 && span == 1 && got.is_some(), "one unit from column 1");
+    if K0 == 2 {
+        kani::cover!(col == 1 && span >= 1 && got.is_some(), "slice starting inside the leading surrogate pair");
+    }
     forget(sv);
 }
 sv_proof!(c15_slice_wide_200, 14, c15_slice_wide_body::<2, 0, 0>());
@@ -268,7 +283,7 @@ sv_proof!(c15_slice_big, 8, {
     let chars = [(1usize, 1usize); 2];
     let want = ref_slice(&chars, 2, col as u64, span as u64);
     let got = sv.get_line_slice(0, col, span);
-    assert!(slice_is(sv.source().as_ptr() as usize, want, got), "C15/slice-any-column-and-span");
+    assert!(slice_is(sv.source().as_ptr() as usize, want, got, span), "C15/slice-any-column-and-span");
     kani::cover!(col as u64 + span as u64 > u32::MAX as u64, "col + span exceeds u32");
     kani::cover!(col == 1 && span == 1 && got.is_some(), "ordinary slice");
     forget(sv);
